@@ -63,6 +63,10 @@ func checkC07(c *Ctx) {
 	// a subscription that was acknowledged stays in effect: the tree drops a level only when it holds nothing
 	c.useRules(ruleT4)
 	c.pruneGuards()
+	// what goes out has the length Len() says and the bytes the encoder counted (T1 length tables, B14)
+	c.codecLengthTables()
+	// an UNSUBSCRIBE removes what the SUBSCRIBE (or the resumed session) registered: one subscriber token per connection
+	c.tokenIdentity()
 }
 
 // afterNever: no b after a (within the case).
